@@ -10,7 +10,9 @@ from harness import em_common as E
 
 RULE = ('real EmissionModel/DirectImageModel, 1-40 layers, 1-12 wavenumbers, ngauss 1-8, temperature profile in '
         '{isothermal, decreasing, inverted, random, two-level}, 1-3 active gases with in-memory tables whose magnitude '
-        'regime is drawn from {zero, thin, mid, saturated, mixed-per-wavenumber}, optional CIA pair; '
+        'regime is drawn from {zero, thin, mid, saturated, mixed-per-wavenumber}, optional CIA pair; plus a reuse stream '
+        '(one model object, parameters changed through the public setters between model() calls, judged against '
+        'the new values and a freshly built model); '
         'distinct non-trivial = distinct (kind, nlayers, ngauss, T-profile class, opacity regime, cia, clamp pattern) '
         'with at least one column neither transparent nor saturated')
 ASSUMPTIONS = ['np.polynomial.legendre.leggauss(n): nodes in (-1,1), sum w = 2, sum w x = 0 (checked numerically n=1..16)',
@@ -86,28 +88,35 @@ def gen_case(rng, k, thorough=False):
     return dict(kind=kind, spec=spec, wn=wn, tables=tables, cia=cia, tclass=tclass, regime=regime)
 
 
+def install(c):
+    """register the case's in-memory opacities / CIA (call inside E.CacheState())"""
+    wn = np.asarray(c['wn'], float)
+    E.install_xsecs({nm: (t['tg'], t['pg'], np.asarray(t['tab'], float), wn) for nm, t in c['tables'].items()})
+    cias = []
+    if c.get('cia'):
+        cias.append(E.mem_cia(c['cia']['pair'], c['cia']['tg'], np.asarray(c['cia']['tab'], float), wn))
+    E.install_cia(cias)
+
+
+def observe(m):
+    """run a (possibly reused) model object; returns everything observed, parameters read back from the object"""
+    I, _mu, _w, _ = m.partial_model()
+    grid, flux, tau, _ = m.model()
+    return dict(I=np.array(I, float), muinv=np.array(_mu, float).ravel(), w=np.array(_w, float).ravel(),
+                grid=np.array(grid, float), flux=np.array(flux, float).ravel(),
+                dz=np.array(m.deltaz, float), dens=np.array(m.densityProfile, float),
+                T=np.array(m.temperatureProfile, float), contribs=E.contribution_inputs(m),
+                mu_quads=np.array(m._mu_quads, float), wi_quads=np.array(m._wi_quads, float),
+                rp=float(m.planet.fullRadius), rs=float(m.star.radius), dist=float(m.star.distance),
+                tstar=float(m.star.temperature), sed=np.array(m.star.spectralEmissionDensity, float),
+                clamp=float(m._clamp))
+
+
 def run_impl(c):
     """build the real model and run it; returns everything observed"""
-    spec = dict(c['spec'])
-    wn = np.asarray(c['wn'], float)
     with E.CacheState():
-        E.install_xsecs({nm: (t['tg'], t['pg'], np.asarray(t['tab'], float), wn) for nm, t in c['tables'].items()})
-        cias = []
-        if c.get('cia'):
-            cias.append(E.mem_cia(c['cia']['pair'], c['cia']['tg'], np.asarray(c['cia']['tab'], float), wn))
-        E.install_cia(cias)
-        m = E.build_model(c['kind'], spec)
-        I, _mu, _w, _ = m.partial_model()
-        grid, flux, tau, _ = m.model()
-        out = dict(I=np.array(I, float), muinv=np.array(_mu, float).ravel(), w=np.array(_w, float).ravel(),
-                   grid=np.array(grid, float), flux=np.array(flux, float).ravel(),
-                   dz=np.array(m.deltaz, float), dens=np.array(m.densityProfile, float),
-                   T=np.array(m.temperatureProfile, float), contribs=E.contribution_inputs(m),
-                   mu_quads=np.array(m._mu_quads, float), wi_quads=np.array(m._wi_quads, float),
-                   rp=float(m.planet.fullRadius), rs=float(m.star.radius), dist=float(m.star.distance),
-                   tstar=float(m.star.temperature), sed=np.array(m.star.spectralEmissionDensity, float),
-                   clamp=float(m._clamp))
-    return out
+        install(c)
+        return observe(E.build_model(c['kind'], dict(c['spec'])))
 
 
 def pc_tokens():
@@ -125,6 +134,14 @@ def eval_case(ctx, c):
     except Exception as e:
         ctx.violation('raises:' + kind, 'forward model raised %r on a valid atmosphere' % (e,), c)
         return
+    judge(ctx, c, o, small)
+
+
+def judge(ctx, c, o, small, kp=''):
+    """all comparisons and predicates for one observed run `o` of the case `c` (whose spec holds the parameter
+    values the run must reflect); `kp` prefixes the violation keys (reuse stream: 'stale-state:')"""
+    spec = c['spec']
+    kind = c['kind']
     nq = spec['ngauss']
     xs, wts = np.polynomial.legendre.leggauss(nq)
     nus = o['grid']
@@ -197,23 +214,24 @@ def eval_case(ctx, c):
             if abs(v - 10.0) > 1e-6:
                 ctx.check_eq('clamp decision ' + name, bool(v < 10.0), bool(mk), dict(small, layer=l, min=v))
     # ---- the property's own predicates, on the implementation --------------------------------------------
-    predicates(ctx, c, o, ref, small)
+    predicates(ctx, c, o, ref, small, kp)
 
 
-def predicates(ctx, c, o, ref, small):
+def predicates(ctx, c, o, ref, small, kp=''):
     kind = c['kind']
     nus = o['grid']
     flux = o['flux']
     case = dict(c, small=small)
+    # parameters the run must reflect (spec side) vs what the object reports
     if not np.all(np.isfinite(flux)):
-        ctx.violation('nonfinite:' + kind, 'spectrum not finite on a valid atmosphere', case, dict(flux=flux))
+        ctx.violation(kp + 'nonfinite:' + kind, 'spectrum not finite on a valid atmosphere', case, dict(flux=flux))
         return
     # quadrature: sum w mu = 1/2
     s = float(np.sum(o['mu_quads'] * o['wi_quads']))
     if abs(s - 0.5) > 1e-12:
-        ctx.violation('quadrature-half', 'sum_q w_q mu_q != 1/2 on the model nodes', case, dict(sum=s))
+        ctx.violation(kp + 'quadrature-half', 'sum_q w_q mu_q != 1/2 on the model nodes', case, dict(sum=s))
     if np.any(o['mu_quads'] <= 0) or np.any(o['mu_quads'] >= 1) or np.any(o['wi_quads'] <= 0):
-        ctx.violation('quadrature-range', 'mapped nodes outside (0,1) or non-positive weights', case)
+        ctx.violation(kp + 'quadrature-range', 'mapped nodes outside (0,1) or non-positive weights', case)
     if kind == 'emission':
         fac = (o['rp'] / o['rs']) ** 2 / E.planck_np(nus, o['tstar'])
     else:
@@ -225,7 +243,7 @@ def predicates(ctx, c, o, ref, small):
     for a, cut, u, bd, fl in zip(flux, ref['flux_cut'] * fac, ref['flux_uncut'] * fac, ref['band_flux'] * fac, floor):
         if C.close(a, cut, rel=1e-7, abs_=fl) or abs(a - u) <= bd * (1 + 1e-6) + 1e-7 * abs(u) + fl:
             continue
-        ctx.violation('integral' + key_sfx, 'spectrum differs from the documented layered thermal integral',
+        ctx.violation(kp + 'integral' + key_sfx, 'spectrum differs from the documented layered thermal integral',
                       case, dict(impl=flux, documented=ref['flux_uncut'] * fac, band=ref['band_flux'] * fac))
         break
     # hot / cold bounds
@@ -233,7 +251,7 @@ def predicates(ctx, c, o, ref, small):
     bmin = E.planck_np(nus, float(T.min())) * fac
     bmax = E.planck_np(nus, float(T.max())) * fac
     if np.any(flux < bmin * (1 - 1e-8) - floor) or np.any(flux > bmax * (1 + EM10) * (1 + 1e-8)):
-        ctx.violation('hot-cold-bounds' + key_sfx, 'spectrum outside the blackbody ratios of coldest/hottest layer',
+        ctx.violation(kp + 'hot-cold-bounds' + key_sfx, 'spectrum outside the blackbody ratios of coldest/hottest layer',
                       case, dict(flux=flux, cold=bmin, hot=bmax))
     # isothermal identity
     if float(T.max()) == float(T.min()):
@@ -242,7 +260,7 @@ def predicates(ctx, c, o, ref, small):
         sat = float(ref['surf'].min()) >= 10.0 - 1e-6
         hi = (1 + EM10) * (1 + 1e-8) if sat else 1 + 1e-8
         if np.any(ratio < 1 - 1e-8) or np.any(ratio > hi):
-            ctx.violation('isothermal-identity' + key_sfx,
+            ctx.violation(kp + 'isothermal-identity' + key_sfx,
                           'isothermal atmosphere does not return B(T)/B(T*)(Rp/Rs)^2 (Rp^2/(2d^2) B(T) for direct)',
                           case, dict(ratio=ratio, saturated=sat))
 
@@ -293,16 +311,99 @@ def malformed(ctx):
             ctx.malformed_outcome(tag + type(e).__name__)
 
 
+def reuse_case(ctx, c, nsteps=3):
+    """one model object, model() -> change a parameter through the public setters -> model() again; after every
+    step the full set of comparisons / predicates is judged against the NEW parameter values, and the spectrum must
+    equal that of a freshly built model with the same values"""
+    from taurex.constants import RJUP, RSOL
+    rng = ctx.rng
+    c = dict(c, spec=dict(c['spec'], gases=dict(c['spec']['gases'])))
+    kind = c['kind']
+    with E.CacheState():
+        install(c)
+        try:
+            m = E.build_model(kind, dict(c['spec']))
+            observe(m)
+        except Exception as e:
+            ctx.violation('raises:' + kind, 'forward model raised %r on a valid atmosphere' % (e,), c)
+            return
+        params = ['star_temperature', 'planet_radius', 'planet_mass', 'gas', 'ngauss', 'star_distance', 'pmax']
+        if np.ndim(c['spec']['T']) == 0:
+            params += ['T', 'T']
+        first = 'star_temperature' if rng.random() < 0.4 else None
+        for step in range(nsteps):
+            p = first if (step == 0 and first) else str(rng.choice(params))
+            spec = c['spec']
+            if p == 'star_temperature':
+                v = float(rng.uniform(3000, 9000))
+                m.star.temperature = v
+                spec['ts'] = v
+            elif p == 'star_distance':
+                v = float(10 ** rng.uniform(-0.5, 2.5))
+                m.star.distance = v
+                spec['dist'] = v
+            elif p == 'planet_radius':
+                v = float(rng.uniform(0.5, 1.6))
+                m['planet_radius'] = v
+                spec['rp'] = v
+            elif p == 'planet_mass':
+                v = float(rng.uniform(0.3, 5))
+                m['planet_mass'] = v
+                spec['mp'] = v
+            elif p == 'gas':
+                g = str(rng.choice(sorted(spec['gases'])))
+                v = float(10 ** rng.uniform(-7, -2))
+                m[g] = v
+                spec['gases'][g] = v
+            elif p == 'ngauss':
+                v = int(rng.integers(1, 9))
+                m.set_num_gauss(v)
+                spec['ngauss'] = v
+            elif p == 'pmax':
+                v = float(10 ** rng.uniform(4, 7))
+                m['atm_max_pressure'] = v
+                spec['pmax'] = v
+            else:
+                v = float(rng.uniform(300, 2800))
+                m['T'] = v
+                spec['T'] = v
+            small = dict(kind=kind, nlayers=spec['nlayers'], ngauss=spec['ngauss'], tclass=c.get('tclass'),
+                         regime=c.get('regime'), cia=bool(c.get('cia')), nwn=len(c['wn']), reuse_step=step, changed=p)
+            case = dict(c, spec=dict(spec, gases=dict(spec['gases'])), reuse=dict(step=step, changed=p))
+            try:
+                o = observe(m)
+                fresh = observe(E.build_model(kind, dict(case['spec'])))
+            except Exception as e:
+                ctx.violation('stale-state:raises:' + p, 'model raised %r after a parameter change' % (e,), case)
+                return
+            ctx.bucket('reuse:' + p)
+            # the object must report the new values …
+            want = dict(rp=spec['rp'] * RJUP, tstar=spec['ts'], dist=spec['dist'])
+            for kk, vv in want.items():
+                if not C.close(o[kk], vv, rel=1e-12):
+                    ctx.violation('stale-state:readback:' + kk, 'parameter set through the public setter is not '
+                                  'reported back', case, dict(got=o[kk], want=vv))
+            # … and compute the same spectrum as a freshly built model with these values
+            if o['flux'].shape != fresh['flux'].shape or not C.close(o['flux'], fresh['flux'], rel=1e-9):
+                ctx.violation('stale-state:differs-from-fresh:' + p, 'a reused model object does not return the '
+                              'spectrum of a freshly built model after changing ' + p, case,
+                              dict(reused=o['flux'], fresh=fresh['flux']))
+            judge(ctx, case, o, small, kp='stale-state:')
+
+
 def run(ctx):
     validate_leggauss(ctx)
     validate_planck(ctx)
     n = ctx.n(500, 18000)
     for k in range(n):
         eval_case(ctx, gen_case(ctx.rng, k, thorough=not ctx.quick))
+    for k in range(ctx.n(80, 1500)):
+        reuse_case(ctx, gen_case(ctx.rng, k, thorough=False))
     malformed(ctx)
 
 
 def replay(ctx, case):
     case = dict(case)
     case.pop('small', None)
+    case.pop('reuse', None)       # a reuse-stream case replays as a fresh run on the final parameter values
     eval_case(ctx, case)
